@@ -33,7 +33,7 @@ ASSUMPTIONS = [
 ]
 MANIFEST = {
     'level': 'exploration',
-    'technique': 'runtime differential monitor: real UPDATE decode -> JSON API event and Adj-RIB-In vs the intent the bytes were built from (independent encoder) over generated well-formed UPDATEs',
+    'technique': 'runtime differential monitor: real UPDATE decode -> JSON API event and Adj-RIB-In vs the intent the bytes were built from (independent encoder) over generated well-formed UPDATEs; a sample of the same UPDATE stream sent over TCP to the real daemon process and judged on the JSON lines its real helper process receives',
     'text': 'Generated well-formed UPDATEs are decoded by the real code under production-built negotiated sessions; the announce / '
     'withdraw sets, next hops, attribute values, merged AS path and End-of-RIB family reported on the JSON API and the content '
     'of Adj-RIB-In after the real UpdateHandler are compared with the intent. Held = no disagreement on the generated cases.',
